@@ -36,6 +36,44 @@ Fixpoint k7_shape (s : src) : bool :=
   | _ => false
   end.
 
+(* K7, as wide as it is (Proofs/EqDiffStrict.v: outside k7c_shape the strict content clauses of
+   C14 hold after any two histories; k7_k7c: it contains k7_shape).  A CachedSource whose wrapped
+   source
+     - announces a file but attributes no text to any file, with or without columns (the class
+       above, read off the attribution instead of the chunks), or
+     - announces a file without content in front of a file with content: the map the cache
+       stores holds the positional table sourcesContent, where the missing content is "", so
+       warm the cache announces that file with content "" - cold with none - and the enclosing
+       map() carries "" or nothing for it depending on whether a content follows it there. *)
+Fixpoint content_gap (l : list (text * option text)) : bool :=
+  match l with
+  | [] => false
+  | (_, None) :: r => existsb (fun p => match snd p with Some _ => true | None => false end) r || content_gap r
+  | _ :: r => content_gap r
+  end.
+
+(* the cold text-carrying stream of the wrapped source *)
+Definition cold_events (inner : src) (c : bool) : list event := fst (fst (stream [] inner (mkOpts c false))).
+
+Definition attributes_nothing (evs : list event) (c : bool) : bool :=
+  forallb (fun a => match a with None => true | Some _ => false end) (attr_of_stream evs c).
+
+Definition announces_history_dependent (inner : src) : bool :=
+  let evs1 := cold_events inner true in
+  let anns := contents_of_events evs1 in
+  if is_nil anns then false
+  else if content_gap anns then true
+  else if attributes_nothing evs1 true then true
+  else attributes_nothing (cold_events inner false) false.
+
+Fixpoint k7c_shape (s : src) : bool :=
+  match s with
+  | SCached _ inner => announces_history_dependent inner || k7c_shape inner
+  | SConcat cs => existsb k7c_shape cs
+  | SReplace inner _ => k7c_shape inner
+  | _ => false
+  end.
+
 
 Fixpoint hev_eqb (a b : hev) : bool :=
   match a, b with
@@ -206,7 +244,7 @@ Definition chk_C14_pair (a b : src) (o : pair_obs) : N :=
     else match obs_equiv (po_a o) (po_b o) with
          | 0 => 0
          | k => if k2_shape a || k2_shape b then 52
-                else if ((k =? 5) || (k =? 6)) && (k7_shape a || k7_shape b) then 57
+                else if ((k =? 5) || (k =? 6)) && (k7c_shape a || k7c_shape b) then 57
                 else 10 + k
          end
   else 0.
